@@ -10,8 +10,14 @@ survives a reclaim, rollback without a tag, set_length at alloc-offset-1 / alloc
 set_position at data_len / data_len+1 / below an active tag, allocation failure exactly when
 the allocator is asked, finish after partial consumption (with and without a tag), split with
 empty fields / leading / trailing / repeated delimiters / whitespace / duplicates differing in
-case, NUL and non-printable bytes for the string functions.  What is CHECKED is decided by the
-extracted model and specification, never by this simulation.
+case, NUL and non-printable bytes for the string functions; append_num_dec / _hex with 0, 9/10,
+99/100, 2^32, 10^19 - 1 / 10^19, 2^64 - 1, width 0 (natural) / smaller / larger than the digit count /
+beyond 16 and 19, with exactly one byte of room and a refusing allocator; parse_dns_binstr / _str
+over crafted character-strings (length 0, 1, 255, length byte beyond remaining_len / beyond the
+data, several strings, non-printable bytes, remaining_len 0, each allocation request refused in
+turn); split with the n-th allocation request refused (n = 0 .. 10: array, piece objects, array
+growth at pieces 0 and 4).  What is CHECKED is decided by the extracted model and specification,
+never by this simulation.
 """
 
 
@@ -271,13 +277,105 @@ FLAGSETS = [0, 0, 48, 48, 4, 12, 4 | 48, 12 | 48, 2, 2 | 4, 2 | 12, 2 | 48, 1, 1
             16 | 4, 32 | 4, 32 | 12, 1 | 48, 1 | 16, 1 | 32, 2 | 4 | 48, 63]
 
 
-def op_split(rng, sim, ops, delims=None):
+def op_split(rng, sim, ops, delims=None, failat=0.12):
     if delims is None:
         delims = [ord(ch) for ch in rng.choice([",", " ", ", ", ":", "\n", ""])]
     fl = rng.choice(FLAGSETS)
     mx = rng.choice([0, 0, 0, 1, 2, 3])
-    fail = rng.random() < 0.05
-    ops.append(("!" if fail else "") + "sx:%s:%d:%d" % (hx(delims), fl, mx))
+    r = rng.random()
+    pre = ""
+    if r < 0.05:
+        pre = "!"
+    elif r < 0.05 + failat:
+        # the n-th allocation request of the call is refused: 0 = the array, then per kept piece the
+        # ares_buf_t and (pieces 0, 4, 8, 16 ...) the growth of the array
+        pre = "!%d" % rng.choice([0, 1, 1, 2, 2, 3, 3, 4, 5, 6, 7, 8, 10])
+    ops.append(pre + "sx:%s:%d:%d" % (hx(delims), fl, mx))
+    return "unknown"
+
+
+NUMS = [0, 1, 9, 10, 99, 100, 255, 256, 4095, 4096, 65535, 65536, (1 << 32) - 1, 1 << 32, 10 ** 10,
+        10 ** 18, 10 ** 19 - 1, 10 ** 19, (1 << 63), (1 << 64) - 1]
+
+
+def op_num(rng, sim, ops, fail=False, num=None, ln=None):
+    """ares_buf_append_num_dec / _hex"""
+    hexa = rng.random() < 0.4
+    if num is None:
+        num = rng.choice(NUMS) if rng.random() < 0.7 else rng.randrange(1 << rng.choice([4, 8, 16, 33, 64]))
+    nd = len("%x" % num) if hexa else len("%d" % num)
+    if ln is None:
+        ln = rng.choice([0, 0, 0, 1, 2, max(1, nd - 1), nd, nd + 1, nd + 3, 16, 17, 19, 20, 21, 25])
+    pre = ""
+    if fail:
+        pre = rng.choice(["!", "!", "!0", "!1"])
+    ops.append(pre + "%s:%d:%d" % ("nh" if hexa else "nd", num, ln))
+    sim.append(ln or nd, fail and pre != "!1")
+
+
+def scenario_num_boundary(rng, sim, ops):
+    """a number when exactly 0..3 bytes of room are left, with a refusing allocator: the unpatched
+    code appended the digits that still fit and then reported ARES_ENOMEM"""
+    if sim.const or sim.broken():
+        resync(sim, ops)
+    direct = sim.alloc - sim.dlen - 1
+    if direct < 0:
+        op_append(rng, sim, ops, n=1, kind="a")
+        direct = sim.alloc - sim.dlen - 1
+    left = rng.choice([0, 1, 1, 2, 3])
+    if direct > left:
+        op_append(rng, sim, ops, n=direct - left, kind="a")
+    op_num(rng, sim, ops, fail=(rng.random() < 0.7), num=rng.choice([12, 123, 1234, 65535, 10 ** 19]), ln=rng.choice([0, 0, 4, 6]))
+
+
+def binstr_bytes(rng):
+    """one or more DNS character-strings <len><bytes>, possibly damaged"""
+    out = []
+    for _ in range(rng.choice([1, 1, 2, 3, 5])):
+        n = rng.choice([0, 0, 1, 1, 2, 5, 12, 63, 64, 254, 255])
+        printable = rng.random() < 0.75
+        body = rbytes(rng, n, printable=printable)
+        if n and not printable and rng.random() < 0.5:
+            body = rbytes(rng, n, printable=True)
+            body[rng.randrange(n)] = rng.choice([0, 0x1f, 0x7f, 0x80, 0xff])
+        out += [n] + body
+    c = rng.random()
+    if c < 0.15 and out:
+        out = out[:rng.randrange(len(out))]              # truncated: a length byte points beyond the data
+    elif c < 0.25:
+        out += [rng.choice([1, 2, 200, 255])]            # a trailing length byte without data
+    return out
+
+
+def op_binstr(rng, sim, ops, fresh=True):
+    """ares_buf_parse_dns_binstr / _str: remaining_len at and around the string, 0, huge"""
+    if fresh:
+        bs = binstr_bytes(rng)
+        if rng.random() < 0.8:
+            ops.append("K:" + hx(bs))
+            if bs:
+                sim.newconst(len(bs))
+        else:
+            ops.append("N"); sim.new()
+            if bs:
+                ops.append("a:" + hx(bs)); sim.append(len(bs))
+        left = list(bs)
+    else:
+        left = None
+    for _ in range(rng.choice([1, 2, 3, 6])):
+        if left:
+            ln = left[0]
+            rl = rng.choice([0, 1, ln, ln + 1, ln + 1, ln + 2, len(left), len(left) + 1, 300, 70000])
+        else:
+            rl = rng.choice([0, 1, 2, 5, 256, 300])
+        want = 0 if rng.random() < 0.2 else 1
+        r = rng.random()
+        pre = "!" if r < 0.06 else "!0" if r < 0.12 else "!1" if r < 0.22 else "!2" if r < 0.24 else ""
+        ops.append(pre + "%s:%d:%d" % (rng.choice(["pb", "pb", "ps"]), rl, want))
+        if left:
+            # where the cursor probably is afterwards (the model decides): behind the string on success
+            ln = left[0]
+            left = left[1 + ln:] if (rl > ln and len(left) > ln and not pre) else left[1:]
     return "unknown"
 
 
@@ -397,9 +495,10 @@ def gen_case(rng, maxops):
     n = rng.choice([4, 10, 25, 60, maxops])
     ops = []
     sim = Sim()
-    mode = rng.choice(["mixed", "mixed", "write", "parse", "split", "tagreclaim", "grow", "contract", "enomem"])
+    mode = rng.choice(["mixed", "mixed", "write", "parse", "split", "tagreclaim", "grow", "contract", "enomem",
+                       "num", "binstr", "splitfail"])
     allow_contract = mode == "contract"
-    if mode in ("parse", "split") or rng.random() < 0.1:
+    if mode in ("parse", "split", "splitfail") or rng.random() < 0.1:
         bs, delims = text_bytes(rng)
         if rng.random() < 0.7:
             ops.append("K:" + hx(bs))
@@ -420,6 +519,22 @@ def gen_case(rng, maxops):
             unknown = op_parse(rng, sim, ops)
         elif mode == "split" and r < 0.35:
             unknown = op_split(rng, sim, ops, delims if rng.random() < 0.8 else None)
+        elif mode == "splitfail" and r < 0.5:
+            # a fresh text for every split (the previous one consumed everything)
+            bs, delims = text_bytes(rng)
+            ops.append("K:" + hx(bs))
+            if bs:
+                sim.newconst(len(bs))
+            unknown = op_split(rng, sim, ops, delims if rng.random() < 0.9 else None, failat=0.75)
+        elif mode == "num" and r < 0.5:
+            if rng.random() < 0.4:
+                scenario_num_boundary(rng, sim, ops)
+            else:
+                if sim.const and rng.random() < 0.8:
+                    resync(sim, ops)
+                op_num(rng, sim, ops, fail=(rng.random() < 0.15))
+        elif mode == "binstr" and r < 0.5:
+            unknown = op_binstr(rng, sim, ops, fresh=(rng.random() < 0.8))
         elif mode == "tagreclaim" and r < 0.3:
             scenario_tag_reclaim(rng, sim, ops)
         elif mode == "grow" and r < 0.4:
@@ -434,6 +549,10 @@ def gen_case(rng, maxops):
             scenario_boundary_fetch(rng, sim, ops) if not sim.const else op_fetch(rng, sim, ops)
         elif r < 0.07:
             unknown = scenario_finish(rng, sim, ops)
+        elif r < 0.075:
+            op_num(rng, sim, ops, fail=(rng.random() < 0.1))
+        elif r < 0.08:
+            unknown = op_binstr(rng, sim, ops, fresh=(rng.random() < 0.5))
         elif r < 0.09:
             unknown = op_split(rng, sim, ops)
         elif r < 0.11:
@@ -457,7 +576,7 @@ def gen_case(rng, maxops):
             op_tag(rng, sim, ops)
         else:
             op_pos(rng, sim, ops, allow_contract)
-        if unknown and rng.random() < 0.5 and mode not in ("parse", "split"):
+        if unknown and rng.random() < 0.5 and mode not in ("parse", "split", "splitfail", "binstr"):
             resync(sim, ops)
         elif unknown:
             # keep going with a stale simulation: only the aim of later ops gets worse
